@@ -42,7 +42,9 @@ import (
 
 var c17Values = []string{`1`, `"ab"`, `{"a":[1]}`, `[]`, `true`, `12.5e1`}
 var c17Seps = []string{"", " ", "\n"}
-var c17BufSizes = []int{1, 4, 16, 4096}
+// a negative size means: that size with the stream-buffer pool left ON (a released buffer is
+// handed to the next decoder, so data that still refers to it is overwritten)
+var c17BufSizes = []int{1, 4, 16, 4096, -4096}
 
 const c17MaxStream = 20
 
@@ -485,6 +487,11 @@ var c17OrigBuf, c17OrigLimit = option.DefaultDecoderBufferSize, option.LimitBuff
 // the decoder call Read with an empty buffer; the scripted reader answers (0,nil) to that
 // without consuming a script step.)
 func c17SetBuf(n int) {
+	if n < 0 {
+		option.DefaultDecoderBufferSize = uint(-n)
+		option.LimitBufferSize = c17OrigLimit
+		return
+	}
 	option.DefaultDecoderBufferSize = uint(n)
 	option.LimitBufferSize = 0
 }
